@@ -14,6 +14,7 @@
  * limitations under the License.
  */
 
+#include <unifex/detail/verif_hooks.hpp>
 #include <unifex/v1/async_manual_reset_event.hpp>
 
 namespace unifex {
@@ -25,6 +26,7 @@ void async_manual_reset_event::set() noexcept {
 
   // replace the stack of waiting operations with a sentinel indicating we've
   // been signalled
+  UNIFEX_VERIF_POINT(301);
   void* top = state_.exchange(signalledState, std::memory_order_acq_rel);
 
   if (top == signalledState) {
@@ -57,6 +59,7 @@ void async_manual_reset_event::start_or_wait(
     // note: on the first iteration, this line transitions op.next_ from
     //       indeterminate to a well-defined value
     op.next_ = static_cast<_op_base*>(top);
+    UNIFEX_VERIF_POINT(302);
   } while (!evt.state_.compare_exchange_weak(
       top,
       static_cast<void*>(&op),
